@@ -479,6 +479,13 @@ func SuperMain(args []string) int {
 		"known_findings_seen": len(seenKnown),
 		"exhaustive":          obs["exhaustive_subruns_completed"] > 0 && obs["exhaustive_subruns_incomplete"] == 0,
 	}
+	if len(inconclusive) > 0 {
+		k := len(inconclusive)
+		if k > 20 {
+			k = 20
+		}
+		cov["inconclusive_reasons"] = inconclusive[:k]
+	}
 	if ck.Race {
 		cov["race_reports"] = raceReports
 	}
